@@ -669,11 +669,77 @@ package gocql
 //@   ensures !soft_panic() && result1 == nil ==> result0 != nil
 //@   ensures !soft_panic() ==> nonnilptr(result0)
 
+// ERROR body (spec section 9): [int] code, [string] message, then the fields of that code. B = the body as
+// received; the message has emlen(f) bytes, the code-specific fields start at offset 6+emlen(f). Every
+// field of the returned error is the field at its position in B and the body is consumed exactly.
+//@ predicate ecode(f): int(int32(be32(old(f.buf), 0)))
+//@ predicate emlen(f): int(be16(old(f.buf), 4))
+//@ predicate eint(f, o): int(int32(be32(old(f.buf), 6 + emlen(f) + o)))
 //@ func (f *framer) parseErrorFrame
 //@   props C04 C05
 //@   requires f.header != nil
 //@   may_soft_panic
+// verified once per error code (the switch collapses to one arm; together the variants cover every body)
+//@   variant c1000: int(int32(be32(f.buf, 0))) == 0x1000
+//@   variant c1100: int(int32(be32(f.buf, 0))) == 0x1100
+//@   variant c1200: int(int32(be32(f.buf, 0))) == 0x1200
+//@   variant c1300: int(int32(be32(f.buf, 0))) == 0x1300
+//@   variant c1400: int(int32(be32(f.buf, 0))) == 0x1400
+//@   variant c1500: int(int32(be32(f.buf, 0))) == 0x1500
+//@   variant c1600: int(int32(be32(f.buf, 0))) == 0x1600
+//@   variant c1700: int(int32(be32(f.buf, 0))) == 0x1700
+//@   variant c2400: int(int32(be32(f.buf, 0))) == 0x2400
+//@   variant c2500: int(int32(be32(f.buf, 0))) == 0x2500
+//@   variant plain: int(int32(be32(f.buf, 0))) == 0x0000 || int(int32(be32(f.buf, 0))) == 0x000a || int(int32(be32(f.buf, 0))) == 0x0100 || int(int32(be32(f.buf, 0))) == 0x1001 || int(int32(be32(f.buf, 0))) == 0x1002 || int(int32(be32(f.buf, 0))) == 0x1003 || int(int32(be32(f.buf, 0))) == 0x2000 || int(int32(be32(f.buf, 0))) == 0x2100 || int(int32(be32(f.buf, 0))) == 0x2200 || int(int32(be32(f.buf, 0))) == 0x2300
+//@   variant other: int(int32(be32(f.buf, 0))) != 0x1000 && int(int32(be32(f.buf, 0))) != 0x1100 && int(int32(be32(f.buf, 0))) != 0x1200 && int(int32(be32(f.buf, 0))) != 0x1300 && int(int32(be32(f.buf, 0))) != 0x1400 && int(int32(be32(f.buf, 0))) != 0x1500 && int(int32(be32(f.buf, 0))) != 0x1600 && int(int32(be32(f.buf, 0))) != 0x1700 && int(int32(be32(f.buf, 0))) != 0x2400 && int(int32(be32(f.buf, 0))) != 0x2500 && int(int32(be32(f.buf, 0))) != 0x0000 && int(int32(be32(f.buf, 0))) != 0x000a && int(int32(be32(f.buf, 0))) != 0x0100 && int(int32(be32(f.buf, 0))) != 0x1001 && int(int32(be32(f.buf, 0))) != 0x1002 && int(int32(be32(f.buf, 0))) != 0x1003 && int(int32(be32(f.buf, 0))) != 0x2000 && int(int32(be32(f.buf, 0))) != 0x2100 && int(int32(be32(f.buf, 0))) != 0x2200 && int(int32(be32(f.buf, 0))) != 0x2300
 //@   ensures !soft_panic() ==> result != nil && nonnilptr(result)
+//@   ensures[C04] !soft_panic() ==> old(len(f.buf)) >= 6 + emlen(f)
+// UNAVAILABLE 0x1000: <cl><required><alive>
+//@   ensures[C04] !soft_panic() ==> typeis(result, *RequestErrUnavailable) == (ecode(f) == 0x1000)
+//@   ensures[C04] !soft_panic() && ecode(f) == 0x1000 ==> unbox(result, *RequestErrUnavailable).errorFrame.code == 0x1000 && same(unbox(result, *RequestErrUnavailable).errorFrame.message, string(old(f.buf[6:6+emlen(f)])))
+//@   ensures[C04] !soft_panic() && ecode(f) == 0x1000 ==> unbox(result, *RequestErrUnavailable).Consistency == Consistency(be16(old(f.buf), 6 + emlen(f))) && unbox(result, *RequestErrUnavailable).Required == eint(f, 2) && unbox(result, *RequestErrUnavailable).Alive == eint(f, 6) && len(f.buf) == old(len(f.buf)) - (16 + emlen(f))
+// WRITE_TIMEOUT 0x1100: <cl><received><blockfor><writeType>
+//@   ensures[C04] !soft_panic() ==> typeis(result, *RequestErrWriteTimeout) == (ecode(f) == 0x1100)
+//@   ensures[C04] !soft_panic() && ecode(f) == 0x1100 ==> unbox(result, *RequestErrWriteTimeout).errorFrame.code == 0x1100 && same(unbox(result, *RequestErrWriteTimeout).errorFrame.message, string(old(f.buf[6:6+emlen(f)])))
+//@   ensures[C04] !soft_panic() && ecode(f) == 0x1100 ==> unbox(result, *RequestErrWriteTimeout).Consistency == Consistency(be16(old(f.buf), 6 + emlen(f))) && unbox(result, *RequestErrWriteTimeout).Received == eint(f, 2) && unbox(result, *RequestErrWriteTimeout).BlockFor == eint(f, 6)
+//@   ensures[C04] !soft_panic() && ecode(f) == 0x1100 ==> same(unbox(result, *RequestErrWriteTimeout).WriteType, string(old(f.buf[18+emlen(f):18+emlen(f)+int(be16(f.buf, 16+emlen(f)))]))) && len(f.buf) == old(len(f.buf)) - (18 + emlen(f) + int(be16(old(f.buf), 16+emlen(f))))
+// READ_TIMEOUT 0x1200: <cl><received><blockfor><data_present>
+//@   ensures[C04] !soft_panic() ==> typeis(result, *RequestErrReadTimeout) == (ecode(f) == 0x1200)
+//@   ensures[C04] !soft_panic() && ecode(f) == 0x1200 ==> unbox(result, *RequestErrReadTimeout).errorFrame.code == 0x1200 && same(unbox(result, *RequestErrReadTimeout).errorFrame.message, string(old(f.buf[6:6+emlen(f)])))
+//@   ensures[C04] !soft_panic() && ecode(f) == 0x1200 ==> unbox(result, *RequestErrReadTimeout).Consistency == Consistency(be16(old(f.buf), 6 + emlen(f))) && unbox(result, *RequestErrReadTimeout).Received == eint(f, 2) && unbox(result, *RequestErrReadTimeout).BlockFor == eint(f, 6) && unbox(result, *RequestErrReadTimeout).DataPresent == old(f.buf[16+emlen(f)]) && len(f.buf) == old(len(f.buf)) - (17 + emlen(f))
+// ALREADY_EXISTS 0x2400: <ks><table>
+//@   ensures[C04] !soft_panic() ==> typeis(result, *RequestErrAlreadyExists) == (ecode(f) == 0x2400)
+//@   ensures[C04] !soft_panic() && ecode(f) == 0x2400 ==> unbox(result, *RequestErrAlreadyExists).errorFrame.code == 0x2400 && same(unbox(result, *RequestErrAlreadyExists).errorFrame.message, string(old(f.buf[6:6+emlen(f)])))
+//@   ensures[C04] !soft_panic() && ecode(f) == 0x2400 ==> same(unbox(result, *RequestErrAlreadyExists).Keyspace, string(old(f.buf[8+emlen(f):8+emlen(f)+int(be16(f.buf, 6+emlen(f)))])))
+//@   ensures[C04] !soft_panic() && ecode(f) == 0x2400 ==> same(unbox(result, *RequestErrAlreadyExists).Table, string(old(f.buf[10+emlen(f)+int(be16(f.buf, 6+emlen(f))):10+emlen(f)+int(be16(f.buf, 6+emlen(f)))+int(be16(f.buf, 8+emlen(f)+int(be16(f.buf, 6+emlen(f)))))])))
+//@   ensures[C04] !soft_panic() && ecode(f) == 0x2400 ==> len(f.buf) == old(len(f.buf)) - (10 + emlen(f) + len(unbox(result, *RequestErrAlreadyExists).Keyspace) + len(unbox(result, *RequestErrAlreadyExists).Table))
+// UNPREPARED 0x2500: [short bytes] id (copied)
+//@   ensures[C04] !soft_panic() ==> typeis(result, *RequestErrUnprepared) == (ecode(f) == 0x2500)
+//@   ensures[C04] !soft_panic() && ecode(f) == 0x2500 ==> unbox(result, *RequestErrUnprepared).errorFrame.code == 0x2500 && len(unbox(result, *RequestErrUnprepared).StatementId) == int(be16(old(f.buf), 6+emlen(f))) && len(f.buf) == old(len(f.buf)) - (8 + emlen(f) + int(be16(old(f.buf), 6+emlen(f))))
+//@   ensures[C04] !soft_panic() && ecode(f) == 0x2500 ==> forall(k, 0 <= k && k < len(unbox(result, *RequestErrUnprepared).StatementId), unbox(result, *RequestErrUnprepared).StatementId[k] == old(f.buf[8+emlen(f)+k]))
+// READ_FAILURE 0x1300: <cl><received><blockfor> then v4: <numfailures>, v5: <reasonmap>; then <data_present>
+//@   ensures[C04] !soft_panic() ==> typeis(result, *RequestErrReadFailure) == (ecode(f) == 0x1300)
+//@   ensures[C04] !soft_panic() && ecode(f) == 0x1300 ==> unbox(result, *RequestErrReadFailure).errorFrame.code == 0x1300 && unbox(result, *RequestErrReadFailure).Consistency == Consistency(be16(old(f.buf), 6 + emlen(f))) && unbox(result, *RequestErrReadFailure).Received == eint(f, 2) && unbox(result, *RequestErrReadFailure).BlockFor == eint(f, 6)
+//@   ensures[C04] !soft_panic() && ecode(f) == 0x1300 && f.proto <= 4 ==> unbox(result, *RequestErrReadFailure).NumFailures == eint(f, 10) && unbox(result, *RequestErrReadFailure).DataPresent == (old(f.buf[20+emlen(f)]) != 0) && len(f.buf) == old(len(f.buf)) - (21 + emlen(f))
+//@   ensures[C04] !soft_panic() && ecode(f) == 0x1300 && f.proto > 4 ==> unbox(result, *RequestErrReadFailure).NumFailures == len(unbox(result, *RequestErrReadFailure).ErrorMap)
+// WRITE_FAILURE 0x1500: <cl><received><blockfor> then v4: <numfailures>, v5: <reasonmap>; then <write_type>
+//@   ensures[C04] !soft_panic() ==> typeis(result, *RequestErrWriteFailure) == (ecode(f) == 0x1500)
+//@   ensures[C04] !soft_panic() && ecode(f) == 0x1500 ==> unbox(result, *RequestErrWriteFailure).errorFrame.code == 0x1500 && unbox(result, *RequestErrWriteFailure).Consistency == Consistency(be16(old(f.buf), 6 + emlen(f))) && unbox(result, *RequestErrWriteFailure).Received == eint(f, 2) && unbox(result, *RequestErrWriteFailure).BlockFor == eint(f, 6)
+//@   ensures[C04] !soft_panic() && ecode(f) == 0x1500 && f.proto <= 4 ==> unbox(result, *RequestErrWriteFailure).NumFailures == eint(f, 10) && same(unbox(result, *RequestErrWriteFailure).WriteType, string(old(f.buf[22+emlen(f):22+emlen(f)+int(be16(f.buf, 20+emlen(f)))]))) && len(f.buf) == old(len(f.buf)) - (22 + emlen(f) + int(be16(old(f.buf), 20+emlen(f))))
+//@   ensures[C04] !soft_panic() && ecode(f) == 0x1500 && f.proto > 4 ==> unbox(result, *RequestErrWriteFailure).NumFailures == len(unbox(result, *RequestErrWriteFailure).ErrorMap)
+// FUNCTION_FAILURE 0x1400: <keyspace><function><arg_types>
+//@   ensures[C04] !soft_panic() ==> typeis(result, *RequestErrFunctionFailure) == (ecode(f) == 0x1400)
+//@   ensures[C04] !soft_panic() && ecode(f) == 0x1400 ==> unbox(result, *RequestErrFunctionFailure).errorFrame.code == 0x1400 && same(unbox(result, *RequestErrFunctionFailure).Keyspace, string(old(f.buf[8+emlen(f):8+emlen(f)+int(be16(f.buf, 6+emlen(f)))])))
+//@   ensures[C04] !soft_panic() && ecode(f) == 0x1400 ==> same(unbox(result, *RequestErrFunctionFailure).Function, string(old(f.buf[10+emlen(f)+int(be16(f.buf, 6+emlen(f))):10+emlen(f)+int(be16(f.buf, 6+emlen(f)))+int(be16(f.buf, 8+emlen(f)+int(be16(f.buf, 6+emlen(f)))))])))
+//@   ensures[C04] !soft_panic() && ecode(f) == 0x1400 ==> len(unbox(result, *RequestErrFunctionFailure).ArgTypes) == int(be16(old(f.buf), 10+emlen(f)+int(be16(old(f.buf), 6+emlen(f)))+int(be16(old(f.buf), 8+emlen(f)+int(be16(old(f.buf), 6+emlen(f)))))))
+// CAS_WRITE_UNKNOWN 0x1700 (v5): <cl><received><blockfor>; CDC_WRITE_FAILURE 0x1600 (v5): nothing more
+//@   ensures[C04] !soft_panic() ==> typeis(result, *RequestErrCASWriteUnknown) == (ecode(f) == 0x1700)
+//@   ensures[C04] !soft_panic() && ecode(f) == 0x1700 ==> unbox(result, *RequestErrCASWriteUnknown).errorFrame.code == 0x1700 && unbox(result, *RequestErrCASWriteUnknown).Consistency == Consistency(be16(old(f.buf), 6 + emlen(f))) && unbox(result, *RequestErrCASWriteUnknown).Received == eint(f, 2) && unbox(result, *RequestErrCASWriteUnknown).BlockFor == eint(f, 6) && len(f.buf) == old(len(f.buf)) - (16 + emlen(f))
+//@   ensures[C04] !soft_panic() ==> typeis(result, *RequestErrCDCWriteFailure) == (ecode(f) == 0x1600)
+//@   ensures[C04] !soft_panic() && ecode(f) == 0x1600 ==> unbox(result, *RequestErrCDCWriteFailure).errorFrame.code == 0x1600 && len(f.buf) == old(len(f.buf)) - (6 + emlen(f))
+// the codes without further fields: the plain error frame; any other code is not a CQL error code: refused
+//@   ensures[C04] !soft_panic() ==> typeis(result, errorFrame) == (ecode(f) == 0x0000 || ecode(f) == 0x000a || ecode(f) == 0x0100 || ecode(f) == 0x1001 || ecode(f) == 0x1002 || ecode(f) == 0x1003 || ecode(f) == 0x2000 || ecode(f) == 0x2100 || ecode(f) == 0x2200 || ecode(f) == 0x2300)
+//@   ensures[C04] !soft_panic() && typeis(result, errorFrame) ==> unbox(result, errorFrame).code == ecode(f) && same(unbox(result, errorFrame).message, string(old(f.buf[6:6+emlen(f)]))) && len(f.buf) == old(len(f.buf)) - (6 + emlen(f))
 
 //@ func (f *framer) parseAuthenticateFrame
 //@   props C04 C05
@@ -943,16 +1009,28 @@ package gocql
 //@   ensures old(n.once.done.v) == 0 ==> Conn_executeQuery_calls + Session_executeQuery_calls == 1
 //@   ensures_assumed iter_wf(result)
 
+// Type descriptors are the ones readTypeInfo builds: the tuple type code is carried by a TupleTypeInfo only.
+//@ func (recv TypeInfo) Type
+//@   interface
+//@   trusted type descriptors are values built by readTypeInfo (tuple code <=> TupleTypeInfo); Type() reads only
+//@   modifies nothing
+//@   ensures (result == 0x0031) == typeis(recv, TupleTypeInfo)
+
+// One column of a row goes to as many destinations as it is wide - a tuple to one per element, anything
+// else to one - whatever the destinations are (nil skips); never beyond the destinations given.
 //@ func scanColumn
 //@   props C04 C05
 //@   requires len(dest) >= 0
 //@   assume col.TypeInfo != nil
-//@   assume typeis(col.TypeInfo, TupleTypeInfo) || true
+//@   ensures[C04] result1 == nil && typeis(col.TypeInfo, TupleTypeInfo) ==> result0 == len(unbox(col.TypeInfo, TupleTypeInfo).Elems)
+//@   ensures[C04] result1 == nil && !typeis(col.TypeInfo, TupleTypeInfo) ==> result0 == 1
+//@   ensures result1 == nil ==> 0 <= result0 && result0 <= len(dest)
+//@   ensures result1 != nil ==> result0 == 0
 
 //@ func (iter *Iter) Scan
 //@   props C04 C05
 //@   boundary
-//@   count_calls nextIter.fetch fetchAsync readColumn
+//@   count_calls nextIter.fetch fetchAsync readColumn scanColumn
 //@   assume iter.pos < iter.numRows ==> iter.framer != nil
 //@   requires iter_wf(iter)
 // an iterator in error yields nothing and asks for nothing
@@ -966,6 +1044,10 @@ package gocql
 //@   ensures[C15] old(iter.err) != nil ==> iter.err == old(iter.err)
 // a row of the current page: the position advances by one, the page stays
 //@   ensures[C15] result && old(iter.err) == nil && old(iter.pos < iter.numRows) ==> iter.pos == old(iter.pos) + 1 && iter.numRows == old(iter.numRows) && nextIter_fetch_calls == 0
+// a row: one cell per column, in column order, each to the destinations from where the previous column stopped
+//@   before[C04] scanColumn: readColumn_calls == rangeindex + 2 && same(arg0, readColumn_ret0) && readColumn_ret1 == nil && same(arg2, dest[i:])
+//@   loop 0: invariant 0 <= i && i <= len(dest) && readColumn_calls == rangeindex + 1 && iter.err == nil && nextIter_fetch_calls == 0
+//@   loop 0: step i == prev(i) + scanColumn_ret0 && scanColumn_ret1 == nil && readColumn_calls == prev(readColumn_calls) + 1
 
 //@ func (is *iterScanner) Next
 //@   props C04 C05
@@ -984,10 +1066,17 @@ package gocql
 //@   assume is.iter.pos < is.iter.numRows ==> is.iter.framer != nil
 //@   loop 0: invariant 0 <= i
 
+// Scan of a scanner: the cells Next read, one per column in column order (the scanner holds as many
+// cells as the page has columns - Scanner() and Next() keep it so)
 //@ func (is *iterScanner) Scan
 //@   props C04 C05
 //@   boundary
+//@   count_calls scanColumn
 //@   requires is.iter != nil
+//@   requires len(is.cols) == len(is.iter.meta.columns)
+//@   before[C04] scanColumn: same(arg0, is.cols[idx]) && same(arg2, dest[i:]) && idx == rangeindex + 1
+//@   loop 0: invariant 0 <= i && i <= len(dest)
+//@   loop 0: step i == prev(i) + scanColumn_ret0 && scanColumn_ret1 == nil
 
 // ---------------------------------------------------------------------------
 // conn.go / control.go / events.go: driver goroutines (C05: a well-formed but
